@@ -35,6 +35,10 @@ def files() -> dict:
         nums.append("    a = a + %d" % v)
     for k in (2, 4, 6, 9, 12, 15, 18, 21):
         nums += ["    for i_%d in range(%d):" % (k, k), "        a = a + i_%d" % k]
+    for k in (2, 4, 6, 9, 12, 15, 18, 21):
+        nums += ["    for j_%d, item_%d in enumerate(items, %d):" % (k, k, k), "        a = a + j_%d" % k]
+    for k in (3, 8, 14, 19):
+        nums += ["    for m_%d, item_%d in enumerate(items, start=%d):" % (k, k, k), "        a = a + m_%d" % k]
     nums.append("    return a")
     out["st/nums.py"] = "\n".join(nums) + "\n"
     # dry: runs of length 2..7 shared by A and B; runs of length 4 shared by 2, 3, 4 files
@@ -225,6 +229,12 @@ class Gadget:
     def fetch_label(self):
         return self._name
 
+    def to_label(self):
+        return self._name
+
+    def finalize(self):
+        return self._name
+
 
 def lbyl_more(x, y, s, obj):
     total = number = ratio = 0
@@ -382,6 +392,8 @@ SWEEPS = [
     ("method-property", "method-property", "ignore_methods", [[], ["get_name"], ["get_name", "size", "fetch_label"]]),
     ("method-property", "method-property", "exclude_names", [[], ["size"]]),
     ("method-property", "method-property", "exclude_prefixes", [[], ["fetch_"], ["fetch_", "get_", "view_"]]),
+    ("method-property", "method-property", "exclude_prefixes_override", [[], ["zz_"], ["to_"], ["to_", "get_", "fetch_", "view_"]]),
+    ("method-property", "method-property", "exclude_names_override", [[], ["zz"], ["finalize"], ["finalize", "size"]]),
     ("improper-logging", "improper-logging", "console_methods", [["log", "warn", "error", "debug", "info", "table"], ["log", "warn"], ["log"]]),
     ("lazy-ignores", "lazy-ignores", "check_ts_ignore", [True, False]),
     ("lazy-ignores", "lazy-ignores", "check_eslint_disable", [True, False]),
@@ -393,6 +405,14 @@ SWEEPS = [
     ("perf", "performance", "regex-in-loop.enabled", [True, False]),
     ("perf", "performance", "string-concat-loop.report_each_concat", [True, False]),
 ]
+
+# construct families a setting is documented to govern: the sweep must move the verdicts of EACH family (a line pattern or a file extension)
+FAMILIES = {
+    ("magic-numbers", "max_small_integer"): {"range()": r"\brange\(", "enumerate()": r"\benumerate\("},
+    ("nesting", "max_nesting_depth"): {"python": ".py", "typescript": ".ts", "rust": ".rs"},
+    ("srp", "max_methods"): {"python": ".py", "typescript": ".ts"},
+    ("srp", "max_loc"): {"python": ".py", "typescript": ".ts"},
+}
 
 # settings whose documented effect is the wording of a finding or an extra notice at the same place
 MESSAGE_LEVEL = {"recommended_fields", "suggest_filter", "suggest_comprehension"}
